@@ -89,8 +89,12 @@ static void compare(const B &s, const B &l, Verdict &v)
         v.detail = "original key " + ks + " loaded key " + kl;
         return;
     }
-    bool refl = false;
-    refl = eq(*s, *s);
+    // eq is only demanded where the original is eq to a structurally identical copy of itself: a nan double
+    // is not (RealDouble::__eq__ compares by ==), so states containing one are judged by bit pattern only
+    bool refl = ks.find(":7ff") == std::string::npos && ks.find(":fff") == std::string::npos && ks.find(",7ff") == std::string::npos
+                && ks.find(",fff") == std::string::npos;
+    if (refl)
+        refl = eq(*s, *s);
     if (!refl)
         v.eq_skipped = true;
     else {
@@ -418,13 +422,20 @@ int main(int argc, char **argv)
     l0.desc = [&](long long i) { return P0.recipe[i]; };
     l0.crash_sig = [&](long long i, const std::string &oc) { return "crash-in-roundtrip:" + oc + ":" + node_class(*P0.e[i]); };
     l0.body = [&](long long i, Ctx &c) { judge(P0.e[i], P0.recipe[i], c); };
+    double tl = now();
+    auto lap = [&](const std::string &what) {
+        R.counters["wall_ms:" + what] = (uint64_t)((now() - tl) * 1000);
+        tl = now();
+    };
     run_cases(l0);
+    lap("L0");
 
     // ---- L1: every constructor on every admissible tuple of leaves
     uint64_t inadm = 0;
     std::vector<Tr> T1 = transitions(P0, 0, inadm);
     CaseSet l1;
     run_layer("L1:ctor(S0,S0)", P0, T1, l1);
+    lap("L1");
     R.counters["tuples_inadmissible(kind mismatch or eager evaluation of wild number)"] += inadm;
 
     // ---- representatives of every reached class
@@ -442,6 +453,7 @@ int main(int argc, char **argv)
             P1.recipe.push_back(reps.recipe[i]);
         }
     }
+    lap("reps1(parent)");
     R.counters["states_S0(leaves)"] = n0;
     R.counters["representatives_R1"] = P1.size() - n0;
     R.counters["distinct_states_L1"] = ALL.size();
@@ -454,6 +466,7 @@ int main(int argc, char **argv)
         T2 = transitions(P1, n0, inadm);
         R.counters["tuples_inadmissible(kind mismatch or eager evaluation of wild number)"] += inadm;
         run_layer("L2:ctor(S0uR1,S0uR1)", P1, T2, l2);
+        lap("L2");
     }
 
     // ---- SH: shared-subtree wrappers around every state of S0 u R1
@@ -501,6 +514,7 @@ int main(int argc, char **argv)
     };
     if (!past_deadline())
         run_cases(sh);
+    lap("SH");
 
     // ---- M: DenseMatrix::dumps / DenseMatrix::loads
     // shapes: [[a,b],[b,a]] (2x2, shared entries), [a,b] (1x2), [a;b] (2x1), [a] (1x1), 2x3 [a,b,a;b,a,b], and 0x0
@@ -617,6 +631,7 @@ int main(int argc, char **argv)
     };
     if (!past_deadline())
         run_cases(mx);
+    lap("M");
 
     std::string bound = "L0: " + std::to_string(P0.size()) + " leaves; L1: all " + std::to_string(T1.size()) + " admissible ctor(S0,S0) of "
                         + std::to_string(CT.size()) + " constructors; L2: all " + std::to_string(T2.size())
